@@ -498,8 +498,9 @@ Proof. unfold relations, centry_tree, entry_from_relations. cbn [children]. appl
 
 Lemma relrec_of_crel r : plain r = true -> relrec_of (crel_tree r) = Ok r.
 Proof.
-  unfold plain. destruct r as [n q v [ar|] [|g pr]]; cbn [rr_archs rr_profs]; try discriminate. intros _.
-  destruct q as [q|]; destruct v as [[[] ver]|]; reflexivity.
+  unfold plain. destruct r as [n q v [ar|] [|g pr]]; cbn [rr_archs rr_profs rr_ver]; try discriminate.
+  destruct v as [[vc [|c ver]]|]; cbn [ver_ok]; try discriminate; intros _;
+    destruct q as [q|]; try destruct vc; cbn; rewrite ?app_nil_r; reflexivity.
 Qed.
 
 Lemma mapM_map_ok {A B} (f : A -> res B) (g : B -> A) l :
